@@ -7,6 +7,11 @@ from checkcfg import PROPS
 BASELINE = json.load(open('/root/.vp/BASELINE.json'))['cmd'] if os.path.exists('/root/.vp/BASELINE.json') else ''
 
 TEXT = {
+ "C16": dict(
+   technique="property-based testing (rapid) differential against the consensus txscript library (GetScriptClass / ExtractPkScriptAddrs) + independent byte-template predicate + builder round trips; native go fuzzing over raw script bytes in thorough",
+   text="Scripts generated from the three witness templates (random hashes, legal/edge/illegal frozen periods, 20- and 22-byte targets incl. illegal target types), nulldata, multisig, non-canonical pushes, each optionally truncated / bit-flipped / extended / re-pushed, and random bytes, are read by utils.ParsePkScript; class, owner address, staking/binding address, maturity and address class must agree with the consensus library, every non-template class must read as the ErrUnsupportedScript sentinel, and nothing may panic. Scripts built by PayToWitnessV0Address / PayToStakingAddrScript / PayToBindingScriptHashScript (the constructors the wallet uses) must read back to exactly the inputs. The nulldata defect found this way was repaired (fix: 26e48e1). Exploration: sampled.",
+   note="Trusted: mass-core txscript/massutil as 'consensus'. The library's own ExtractPkScriptAddrs panics on multisig scripts with unparsable keys, so it is consulted for the three templates only. api.extractAddressInfos (unexported) is exercised through the API in C19, not here.",
+   ref="DESIGN.md §3 C16"),
  "C15": dict(
    technique="property-based testing (rapid) against an exact big-integer decimal reference (round trip + accept/reject oracle); native go fuzzing of the parser in thorough",
    text="Integers in and around [0, max supply] (powers of ten +-1, trailing zeros, range edges, negatives) are formatted by api.AmountToString and masswallet.AmountToString and compared with the shortest-decimal reference, then parsed back. Strings from the grammar digits[.digits] with redundant zeros, empty halves, supply-limit neighbours, symbol soup (+ - e E _ , space), arbitrary Unicode and hostile constants are parsed by api.StringToAmount: valid numerals must give exactly value*10^8, everything else must be rejected. The sign/empty-input defect found this way was repaired (fix: 88a50ee) and stays in the regression list. Exploration: sampled.",
